@@ -39,7 +39,7 @@ def family(rng):
         roots.append(['prog'] + prog)
     if rng.random() < 0.5:
         roots.append(['prog'] + [['sleep', 0], ['log', 200]] * rng.randint(1, 4))
-    return ['scenario', ['debug', 1], ['start', rng.choice([0, 0, 1, 2])], ['flags', 1], ['locks', 0], ['roots'] + roots]
+    return ['scenario', ['debug', 1], ['start', rng.choice([0, 0, 1, 2, 2 ** 34, 2 ** 40 + 1])], ['flags', 1], ['locks', 0], ['roots'] + roots]
 
 
 def nontrivial(impl):
